@@ -1156,6 +1156,12 @@ func runC16(e *Env) {
 	for i := range matrix {
 		concCfgs = append(concCfgs, &matrix[i])
 	}
+	// a longer server list (mixed spellings) for the concurrent stage only, on three servers: more minting per connect
+	longList := c16Cfg{Levels: map[string]string{}, TurnMode: "on", Turn: &c16TurnLongList, Kind: "turn-matrix"}
+	longList.finish()
+	for k := 0; k < 3; k++ {
+		concCfgs = append(concCfgs, &longList)
+	}
 	for i := range singles {
 		concCfgs = append(concCfgs, &singles[i])
 	}
@@ -1355,3 +1361,7 @@ func runC16(e *Env) {
 
 // rounds per TURN URL spelling in the concurrent stage
 func c16ConcMatrixRounds(e *Env) int { return e.Pick(32, 160) }
+
+var c16TurnLongList = c16Turn{"list:four-servers-mixed-spellings",
+	[]string{"turn:a.example.test:3478,turns://b.example.test:5349?servername=b.example.test", "c.example.test:3479", "turn://[2001:db8::9]:3478?transport=tcp"},
+	[]c16TurnWant{{"a.example.test:3478", false}, {"b.example.test:5349", true}, {"c.example.test:3479", false}, {"[2001:db8::9]:3478", false}}}
